@@ -1,13 +1,14 @@
-\* exhaustive (thorough tier; the dynamic privileges are in Privileges_mcdyn.cfg): every history of < MaxStep steps over a small vocabulary (with probes as actions)
+\* exhaustive (thorough tier, next to Privileges_mc4.cfg which has no dynamic privileges): both dynamic
+\* privileges with their own grant-option flags, few static ones, GRANT/REVOKE ALL; every history of < MaxStep steps
 CONSTANTS
   Users = {"u1", "u2"}
   Roles = {"r1"}
   Dbs = {"d1"}
   Tbls = {"t1"}
-  Privs = {"SELECT", "INSERT", "GRANT OPTION", "SUPER"}
-  DynPrivs = {}
+  Privs = {"SELECT", "GRANT OPTION"}
+  DynPrivs = {"REPLICATION_SLAVE_ADMIN", "CLONE_ADMIN"}
   MaxSet = 1
-  WithAll = FALSE
+  WithAll = TRUE
   MaxStep = 4
   InitAll = TRUE
 INIT Init
